@@ -312,6 +312,93 @@ def judge_program(lines, slots, res, sig_prefix):
     return out
 
 
+# ------------------------------------------------------------------ substitution: a name denotes the value it was bound to
+# A line that uses names must evaluate like the same line with every name replaced by the literal it was last bound to - whatever
+# the feature the line belongs to (a currency code after a number variable is not generated: a money literal is digits plus code;
+# units after a number variable, 'date at time', juxtaposed durations, conversions, phrases ...).
+SUB_LITERALS = {
+    'num': ['3', '255', '12,5', '1000', '0xFF', '0b101', '0o17', '64', '7', '2048'],
+    'pct': ['15%', '%7,5', '120%'],
+    'money': ['$20', '35 usd', '12,5 eur', '100 cad', '1k try'],
+    'dur': ['3 hours', '45 minutes', '2 days 4 hours', '90 seconds', '1 week'],
+    'date': ['12/12/2020', '5 march 2020', 'january 28, 2019', '31 december 1999'],
+    'time': ['11:30', '3 pm', '17:45:10', '10:30 EST', '0:15'],
+    'len': ['5 km', '3 mile', '7 inch', '250 cm'],
+    'mem': ['64 kb', '2 gb'],
+}
+SUB_SAME_VALUE = [('255', '0xFF'), ('0xFF', '255'), ('8', '0o10'), ('5', '0b101'), ('0b101', '5'), ('16', '0x10')]     # same magnitude, other base
+SUB_TEMPLATES = [
+    '{num}', '{num} km', '{num} km to m', '{num} mb to gb', '{num} hours', '{num} minutes 30 seconds', '{num} * 2', '2 * {num}', '{num} to hex',
+    '{num} to decimal', '{num} to binary', '{num} + {num2}', '({num} + 1) * {num2}', '{num} days + 2 hours', '{num} kg to lb',
+    '{date} at {time}', '{date} + {dur}', '{date} - {dur}', '{date} to {date2}', '{date} as unix', '{date} + {num} days', '{date}',
+    '{time} + {dur}', '{time} - {dur}', '{time} to CET', '{time} to {time2}', '{time}',
+    '{money} to eur', '{money} + {money2}', '{pct} of {money}', '{money} + {pct}', '{money} - {pct}', '{money} * {num}', '{money} / {money2}',
+    '{pct} off {money}', '{money} is what % of {money2}', '{money}',
+    '{dur} {dur2}', '{dur} + {dur2}', '{dur} - {dur2}', '{dur} as minutes', '{dur} to seconds', '5 hours - {dur} 30 minutes', '{dur}',
+    '{len} to m', '{len} + {len2}', '{len} * {num}', '{len} / {len2}', '{mem} to mb', '{mem} + {mem2}',
+    '{pct} of {num}', '{num} + {pct}', '{num} - {pct}', '{pct} on {num}', '{num} is {pct} of what', '{num} is what % of {num2}', '{pct}',
+]
+SUB_NAMES = ['zq', 'wv', 'mk', 'qux', 'zq total', 'wv rate', 'günlük ücret', 'rent xx']
+
+
+def substitution_case(rng):
+    """-> (program text, reference line, template)"""
+    tpl = rng.choice(SUB_TEMPLATES)
+    slots = re.findall(r'\{([a-z]+)(2?)\}', tpl)
+    names = rng.sample(SUB_NAMES, len(slots))
+    lines = []
+    prog, ref = tpl, tpl
+    for (kind, two), name in zip(slots, names):
+        lit = rng.choice(SUB_LITERALS[kind])
+        r = rng.random()
+        if r < 0.25:
+            # bound before to another literal of the kind: the name denotes the most recent binding
+            first = rng.choice(SUB_LITERALS[kind])
+            if kind == 'num' and rng.random() < 0.5:
+                first, lit = rng.choice(SUB_SAME_VALUE)
+            lines.append('%s = %s' % (name, first))
+        lines.append('%s = %s' % (recase(rng, name), lit))
+        key_ = '{%s%s}' % (kind, two)
+        prog = prog.replace(key_, recase(rng, name), 1)
+        ref = ref.replace(key_, lit, 1)
+    return '\n'.join(lines + [prog]), ref, tpl
+
+
+def value_of(slot):
+    if slot is None or 'v' not in slot:
+        return (mon.kind(slot),)
+    v = dict(slot['v'])
+    v.pop('names', None)
+    return tuple(sorted(v.items()))
+
+
+def run_substitution(ctx, drv, cfg, cops):
+    rng, res = ctx.rng, ctx.res
+    cases = [substitution_case(rng) for _ in range(120)]
+    ops = list(cops)
+    for prog, ref, tpl in cases:
+        ops.append({'op': 'execute', 'lang': 'en', 'text': prog})
+        ops.append({'op': 'execute', 'lang': 'en', 'text': ref})
+    rs = drv.run(ops)[len(cops):]
+    for k, (prog, ref, tpl) in enumerate(cases):
+        a, b = mon.last_slot(rs[2 * k]), mon.last_slot(rs[2 * k + 1])
+        res.cases += 1
+        res.count('substitution_cases')
+        res.distinct.add('subst', prog)
+        res.cover('substitution template', tpl, len(SUB_TEMPLATES))
+        if mon.kind(b) in ('err', 'empty'):
+            # the written-out line itself has no value ('5 march 2020 at 10:30 EST' is not accepted): nothing to compare with
+            res.count('substitution_reference_without_value')
+            continue
+        if value_of(a) == value_of(b):
+            res.count('lines_ok')
+            continue
+        res.violation('program:substitution:%s' % tpl.replace(' ', '_'),
+                      'the program %r gives %s in its last line; the same line with the bound literals written out, %r, gives %s'
+                      % (prog.split('\n'), mon.describe(a), ref, mon.describe(b)),
+                      {'config': cfg, 'lang': 'en', 'text': prog, 'reference': ref, 'ops': cops + [{'op': 'execute', 'lang': 'en', 'text': prog}, {'op': 'execute', 'lang': 'en', 'text': ref}]})
+
+
 def run_shard(ctx):
     rng = ctx.rng
     res = ctx.res
@@ -322,6 +409,9 @@ def run_shard(ctx):
     cops = mon.gh.config_ops(cfg)
     shrunk = 0
     while not ctx.out_of_time():
+        if rng.random() < 0.25:
+            run_substitution(ctx, drv, cfg, cops)
+            continue
         progs = []
         ops = list(cops)
         for _ in range(25):
